@@ -166,7 +166,15 @@ def gen_params(rng, opts):
 def gen_sites(rng, opts):
     sites = {}
     for i in range(rng.randint(1, 3)):
-        sites['i%d' % i] = gen_in_site(rng, 'i%d' % i, i, opts)
+        site = gen_in_site(rng, 'i%d' % i, i, opts)
+        for other in sites.values():
+            if other['kind'] == 'in' and other['alias'] == site['alias']:
+                # two functions behind one alias share one key space: the design's premise (an input is a function of its
+                # alias and captured arguments) then requires them to be the same function with the same configuration
+                flavor = site['flavor'] if (site['flavor'] != 'property' or other['nargs'] == 0) else 'instance'
+                site = dict(other, flavor=flavor if other['kwnames'] == [] or flavor != 'property' else 'instance')
+                break
+        sites['i%d' % i] = site
     for i in range(rng.randint(0, 2)):
         sites['o%d' % i] = gen_out_site(rng, 'o%d' % i, i, opts)
     if opts.get('nested') and rng.random() < 0.4:
